@@ -242,10 +242,12 @@ class RelayWorld(object):
       f = f.f_back
     if self.stopping and by_stop and not t.disconnected and not t.disconnecting:
       self.ctx.probe('stop_closed_connected_destination')
-      if d.factory.queue:
+      normal = [a for a in d.accepted if not a[3]]
+      unwritten = len(normal) - d.unwritten_start
+      if d.factory.queue or unwritten:
         self.ctx.violation('C07', 'stop-closed-before-flush', 'stop',
-                           '%s: connection closed by the stop with %d datapoints still queued'
-                           % (d.dest, len(d.factory.queue)))
+                           '%s: connection closed by the stop with %d accepted datapoints not yet '
+                           'written (%d still queued)' % (d.dest, unwritten, len(d.factory.queue)))
 
   def on_write(self, d, t, data):
     buf = d.decode_buf.get(t, b'') + data
